@@ -27,6 +27,7 @@ import JanetModel.Lib.MiscC2
 import JanetModel.Lib.Boot9
 import JanetModel.Lib.Boot10
 import JanetModel.Lib.Boot11
+import JanetModel.Lib.FormatC
 open Driver JanetModel.Lib
 
 inductive V where
@@ -202,6 +203,19 @@ def varpred (name : String) : Option (Int → List Int → Bool) :=
 /-- `map-n n` (n ≤ 3 extra sequences) or the general branch of map-template, as map-template selects them -/
 def mapTemplate {σ γ : Type} (agg : σ → γ → σ) (g : Int → List Int → γ) (init : σ) (xs : List Int) (rest : List (List Int)) : R σ :=
   if rest.length ≤ 3 then Boot.mapN agg g init xs rest else Boot.mapGen agg g init xs rest
+
+/-- every `%` directive of the format (other than `%%`): the mirror of pp.c `scanformat` and the directive syntax of the
+    reference formatter agree (offset of the conversion character, width digits, precision digits, the two error cases) -/
+partial def directivesAgree (fmt : List Nat) : Bool :=
+  match fmt with
+  | [] => true
+  | 37 :: 37 :: rest => directivesAgree rest
+  | 37 :: rest =>
+    (match FormatC.scanformat rest, FormatC.parse rest with
+     | .ok sc, some (p, w, pr) => sc.p == p && sc.width == w && sc.precision == pr && sc.form.length < 32
+     | .panic, none => true
+     | _, _ => false) && directivesAgree rest
+  | _ :: rest => directivesAgree rest
 
 /-- a value as `flatten` sees it -/
 partial def toNest : V → Boot.Nest V
@@ -434,12 +448,14 @@ def call (f : String) (args : List V) : Out :=
   -- ---------------------------------------------------------------- printf-style subset (Lib/Format.lean)
   | "string/format", (.str 0 fmt) :: xs =>
     let fargs := xs.map (fun v => match v with | .int i => Format.FArg.int i | .str _ b => Format.FArg.bytes b | _ => Format.FArg.other)
+    if !directivesAgree (fmt.takeWhile (· != 0)) then .ok (.other "MIRROR-MISMATCH") args else
     (match Format.format fmt fargs with
      | .ok out => .ok (.str 0 out) args
      | .err _ => .err args
      | .unsupported => .skip)
   | "buffer/format", (.str 1 b) :: (.str 0 fmt) :: xs =>
     let fargs := xs.map (fun v => match v with | .int i => Format.FArg.int i | .str _ b => Format.FArg.bytes b | _ => Format.FArg.other)
+    if !directivesAgree (fmt.takeWhile (· != 0)) then .ok (.other "MIRROR-MISMATCH") args else
     (match Format.format fmt fargs with
      | .ok out => .ok (.str 1 (b ++ out)) (setArg0 args (.str 1 (b ++ out)))
      | .err part => .err (setArg0 args (.str 1 (b ++ part)))
